@@ -248,6 +248,24 @@ func c12Run(o *common.Out, id string, kind string, ops []c12op) {
 // the same histories through a discovery client: updates are published by the discovery and reach the selector
 // through XClient's watch loop; selections are made by the client's own selector.  Oracle only (the slice order the
 // client's selector built is not visible from outside): every window of sum-of-weights selections is proportional.
+// a selector that counts the updates it is given
+type tapSel struct {
+	inner client.Selector
+	mu    sync.Mutex
+	n     int
+}
+
+func (t *tapSel) Select(ctx context.Context, p, m string, a interface{}) string {
+	return t.inner.Select(ctx, p, m, a)
+}
+func (t *tapSel) UpdateServer(servers map[string]string) {
+	t.inner.UpdateServer(servers)
+	t.mu.Lock()
+	t.n++
+	t.mu.Unlock()
+}
+func (t *tapSel) count() int { t.mu.Lock(); defer t.mu.Unlock(); return t.n }
+
 func c12RunX(o *common.Out, id string, kind string, ops []c12op) {
 	abstract := "x|" + c12Encode(kind, ops)
 	o.Begin(id, abstract)
@@ -264,6 +282,7 @@ func c12RunX(o *common.Out, id string, kind string, ops []c12op) {
 	}
 	var d *client.MultipleServersDiscovery
 	var xc client.XClient
+	var tap *tapSel
 	var cur map[string]string
 	nontrivial := false
 	for _, op := range ops {
@@ -279,8 +298,17 @@ func c12RunX(o *common.Out, id string, kind string, ops []c12op) {
 				opt.Heartbeat = false
 				xc = client.NewXClient("p", client.Failfast, mode, d, opt)
 				defer xc.Close()
+				// the client's own kind of selector behind a tap that counts the updates it is given: an update that
+				// announces the set the client already has cannot be told from its server map
+				tap = &tapSel{inner: client.VerifNewSelector(mode, want)}
+				xc.SetSelector(tap)
 			} else {
+				before := tap.count()
 				publish(d, pairsOf(op.servers), true)
+				dl := time.Now().Add(2 * time.Second)
+				for tap.count() == before && time.Now().Before(dl) {
+					time.Sleep(200 * time.Microsecond)
+				}
 			}
 			// the watch loop applies the update asynchronously: wait until the client's server set is the published one
 			deadline := time.Now().Add(3 * time.Second)
